@@ -1,4 +1,5 @@
 import asyncio
+import collections
 import contextlib
 import math
 import random
@@ -13,6 +14,7 @@ from typing import (
     Any,
     AsyncIterator,
     Callable,
+    Deque,
     Generic,
     Iterable,
     Iterator,
@@ -668,6 +670,7 @@ class EventLoopLike(Protocol):  # pragma: no cover
 class PrioritySchedulingMixin(AbstractSchedulingLoop, EventLoopLike):
     def init(self) -> None:
         self.ready_queue: PosPriorityQueue[Handle] = PosPriorityQueue(self.get_priority)
+        self._threadsafe_inbox: Deque[Handle] = collections.deque()
 
     def get_priority(self, handle: Handle) -> float:
         task = self.task_from_handle(handle)
@@ -745,7 +748,44 @@ class PrioritySchedulingMixin(AbstractSchedulingLoop, EventLoopLike):
         self.ready_queue.reschedule(key, priority)
 
 
+class _ThreadsafeInboxMixin:
+    """
+    The heap based ready queue must only be touched by the loop's own thread:
+    an `append()` from another thread in the middle of a heap operation makes
+    that operation raise ("list changed size during iteration") out of the event
+    loop and can lose a queued callback.  `call_soon_threadsafe()` therefore only
+    puts the handle into a deque (`deque.append()` is atomic) and wakes the loop,
+    which moves the handles into the ready queue at the start of each iteration.
+    This class must precede the asyncio event loop class in the list of bases.
+    """
+
+    _threadsafe_inbox: Deque[Handle]
+
+    def call_soon_threadsafe(  # type: ignore[no-untyped-def]
+        self, callback, *args, context=None
+    ) -> Handle:
+        self._check_closed()  # type: ignore[attr-defined]
+        if self._debug:  # type: ignore[attr-defined]
+            self._check_callback(  # type: ignore[attr-defined]
+                callback, "call_soon_threadsafe"
+            )
+        handle = Handle(callback, args, self, context)  # type: ignore[arg-type]
+        self._threadsafe_inbox.append(handle)
+        self._write_to_self()  # type: ignore[attr-defined]
+        return handle
+
+    def _drain_threadsafe_inbox(self) -> None:
+        inbox = self._threadsafe_inbox
+        while inbox:
+            self._ready.append(inbox.popleft())  # type: ignore[attr-defined]
+
+    def _run_once(self) -> None:
+        self._drain_threadsafe_inbox()
+        super()._run_once()  # type: ignore[misc]
+
+
 class PrioritySelectorEventLoop(  # type: ignore[misc]
+    _ThreadsafeInboxMixin,
     asyncio.SelectorEventLoop,
     PrioritySchedulingMixin,
 ):
@@ -759,7 +799,9 @@ DefaultPriorityEventLoop = PrioritySelectorEventLoop
 
 if hasattr(asyncio, "ProactorEventLoop"):  # pragma: no coverage
 
-    class PriorityProactorEventLoop(asyncio.ProactorEventLoop, PrioritySchedulingMixin):  # type: ignore
+    class PriorityProactorEventLoop(  # type: ignore
+        _ThreadsafeInboxMixin, asyncio.ProactorEventLoop, PrioritySchedulingMixin
+    ):
         def __init__(self, arg: Any = None) -> None:
             super().__init__(arg)
             self.init()
